@@ -203,3 +203,55 @@ func gsxC15RunVersion() {
 	gsxrt.Assert(gsxRunSeen && gsxRunVersion.Major == ctx.GoVersion.Major && gsxRunVersion.Minor == ctx.GoVersion.Minor,
 		"version: the user-rules checker does not hand the configured Go version to the rule engine")
 }
+
+// gsxC03RuleRunContext: what a rule-backed checker tells the engine about the
+// world (package, type information, sizes, file set, Go version) is the world of the
+// file being analysed - also when the same long-lived checker analysed files of
+// other packages before (0-2 earlier packages, each with its own package object,
+// type information and configured version).
+func gsxC03RuleRunContext() {
+	gsxMakeGroups()
+	if err := InitEmbeddedRules(); err != nil {
+		panic(err)
+	}
+	ctx := linter.NewContext(token.NewFileSet(), types.SizesFor("gc", "amd64"))
+	var info *linter.CheckerInfo
+	for _, x := range linter.GetCheckersInfo() {
+		if x.Name == gsxIRGroups[0].Name {
+			info = x
+		}
+	}
+	embedded, err := linter.NewChecker(ctx, info)
+	if err != nil {
+		panic(err)
+	}
+	env := gsxC18Env0()
+	env.globNames["r.go"] = []string{"r.go"}
+	dynamic, err := newRuleguardChecker(gsxC18Info("r.go", "", false, "<all>", ""), &linter.CheckerContext{Context: ctx})
+	if err != nil || dynamic == nil {
+		panic("ruleguard checker not constructed")
+	}
+	useDynamic := gsxrt.Choose("checker", 2) == 1
+	history := gsxrt.Choose("earlier packages", 3)
+	for k := 0; k <= history; k++ {
+		pkg := types.NewPackage("p"+string(rune('0'+k)), "p")
+		ctx.SetPackageInfo(&types.Info{Types: map[ast.Expr]types.TypeAndValue{}}, pkg)
+		ctx.GoVersion = linter.GoVersion{Major: 1, Minor: gsxrt.IntRange("minor"+string(rune('0'+k)), 0, 40)}
+		f := &ast.File{Name: &ast.Ident{Name: "p"}, Package: 1}
+		ctx.SetFileInfo("f.go", f)
+		gsxRunSeen = false
+		if useDynamic {
+			dynamic.WalkFile(f)
+		} else {
+			embedded.Check(f)
+		}
+		gsxrt.Assert(gsxRunSeen, "history: the rule engine was not run on a file")
+		if k == history {
+			gsxrt.Reached("last file")
+			seen := gsxRunCtxSeen
+			gsxrt.Assert(seen.Pkg == ctx.Pkg, "history: a rule-backed checker hands the engine the package of an earlier file")
+			gsxrt.Assert(seen.Types == ctx.TypesInfo && seen.Sizes == ctx.SizesInfo && seen.Fset == ctx.FileSet, "history: a rule-backed checker hands the engine stale type information")
+			gsxrt.Assert(seen.GoVersion.Major == ctx.GoVersion.Major && seen.GoVersion.Minor == ctx.GoVersion.Minor, "history: a rule-backed checker hands the engine the Go version of an earlier file")
+		}
+	}
+}
